@@ -545,6 +545,7 @@ def generate(out_dir, repo_dir="/repo", explore_dir="/verif/engine/explore"):
     # call-sequence families: A (base), A' (identical twin), B (single-edit twin), C (unrelated base)
     fam_rows = []
     n_seq = {"quick": 0, "thorough": 0}
+    n_overlap = {"quick": 0, "thorough": 0}
     n_ops = 5 * 5 + 4 * 5   # compare_layouts over {A, A', B, C, missing}^2 + check::<T>(found) for 4 types x 5 found
     for (fname, other, fquick) in SEQ_FAMILIES:
         sh, osh = first_shard[fname], first_shard[other]
@@ -566,6 +567,7 @@ def generate(out_dir, repo_dir="/repo", explore_dir="/verif/engine/explore"):
         for tier in ("quick", "thorough"):
             if tier == "thorough" or fquick:
                 n_seq[tier] += sum(n_ops ** k for k in range(1, SEQ_DEPTH[tier] + 1))
+                n_overlap[tier] += n_ops * 3
     gen = "\n".join([
         "// generated by /verif/gen/layout_gen.py - do not edit",
         "// %d bases, %d shard crates, cases: quick %d / thorough %d" % (len(BASES), len(shards), n_cases["quick"], n_cases["thorough"]),
@@ -578,7 +580,7 @@ def generate(out_dir, repo_dir="/repo", explore_dir="/verif/engine/explore"):
         "pub static FAMILIES: &[Family] = &["] + fam_rows + ["];", ""])
     write_if_changed(os.path.join(out_dir, "h_layout", "src", "generated.rs"), gen)
     return {"bases": len(BASES), "shards": len(shards), "quick_shards": sum(1 for s in shards if s["quick"]),
-            "twins": sum(len(s["twins"]) for s in shards), "cases": n_cases, "sequences": n_seq}
+            "twins": sum(len(s["twins"]) for s in shards), "cases": n_cases, "sequences": n_seq, "overlap": n_overlap}
 
 
 if __name__ == "__main__":
